@@ -875,3 +875,26 @@ Proof.
       rewrite H0. cbn. lia.
     + apply IH. assumption.
 Qed.
+
+(* ------------------------------------------------------------------------------------ *)
+(* stop_remaining_actors with respawning leftovers                                         *)
+
+Lemma sweep_while_empties_gen : forall fuel left budget, budget < fuel -> sweep_while fuel left budget = 0.
+Proof.
+  induction fuel as [|f IH]; intros left budget H; [lia|].
+  cbn [sweep_while]. destruct (Nat.eqb_spec left 0) as [|Hl]; [reflexivity|].
+  unfold sweep_pass. destruct (Nat.eq_dec (Nat.min left budget) 0) as [E|E].
+  - rewrite E. destruct f; [reflexivity|]. cbn. reflexivity.
+  - apply IH. lia.
+Qed.
+
+(* the loop leaves nothing registered, however many (finitely many) respawns happen *)
+Theorem sweep_while_empties_lemma : forall left budget, sweep_while (S budget) left budget = 0.
+Proof. intros. apply sweep_while_empties_gen. lia. Qed.
+
+(* a single pass does leave an actor running as soon as one leftover respawns *)
+Theorem sweep_once_leaves_lemma : forall left budget, 0 < left -> 0 < budget -> 0 < sweep_once left budget.
+Proof.
+  intros left budget Hl Hb. unfold sweep_once, sweep_pass.
+  destruct (Nat.eqb_spec left 0); [lia|]. cbn. lia.
+Qed.
